@@ -116,6 +116,17 @@ Theorem C03_sim_run_request_in_flight : forall tb cf n sc es s,
   Sim.so_bet o <> None /\ (SimAwaitP.awaits (Sim.so_status o) (SimLoop.pk_kind p) \/ Sim.so_status o = SExecComplete).
 Proof. exact SimLifeP.run_request_in_flight_static. Qed.
 Print Assumptions C03_sim_run_request_in_flight.
+(* (0) in the simulation too a cancel / update / replace of an order that does not rest Executable with a known bet id - or that the market does
+   not hold - leaves the whole state (orders, queue, counters) exactly as it was *)
+Theorem C03_sim_request_rejected_without_side_effects : forall cf now st mid s a name m o,
+  SimLifeP.manages a = Some name -> SimLoop.get_market mid (SimLoop.s_markets s) = Some m -> SimLoop.get_order name (SimLoop.mk_orders m) = Some o ->
+  Sim.so_status o <> SExecutable \/ Sim.so_bet o = None -> SimLoop.request0 cf now st mid s a = s.
+Proof. exact SimLifeP.request0_rejected_is_identity. Qed.
+Theorem C03_sim_request_on_unknown_order : forall cf now st mid s a name m,
+  SimLifeP.manages a = Some name -> SimLoop.get_market mid (SimLoop.s_markets s) = Some m -> SimLoop.get_order name (SimLoop.mk_orders m) = None ->
+  SimLoop.request0 cf now st mid s a = s.
+Proof. exact SimLifeP.request0_unknown_is_identity. Qed.
+Print Assumptions C03_sim_request_rejected_without_side_effects.
 (* (5) finality of the sizes: an order that is complete after a prefix of a run has the same status, matched size and fragments after the whole run *)
 Theorem C03_sim_run_matched_frozen_after_completion : forall tb cf n sc es1 es2 s,
   SimGuard.cfg_ok_b cf = true -> SimGuard.initial_b s = true -> forallb (SimGuard.event_b2 sc n) (es1 ++ es2) = true ->
